@@ -1358,6 +1358,66 @@ fn small_coef(r: &mut Rng, rt: RT) -> String {
     }
 }
 
+/// a coefficient that IS zero in the ring, in its different spellings (F_3: multiples of 3, Q: 0/k)
+fn zeroish_coef(r: &mut Rng, rt: RT) -> String {
+    match rt {
+        RT::Zi | RT::Zb => "0".into(),
+        RT::F3 => (*r.pick(&[0i64, 3, 6, -3, -6, 9])).to_string(),
+        RT::Qi | RT::Qb => format!("0/{}", r.range(1, 5)),
+        RT::Gi | RT::Gb => "0:0".into(),
+    }
+}
+fn is_int_lit(s: &str) -> bool {
+    let t = s.strip_prefix('-').unwrap_or(s);
+    !t.is_empty() && t.bytes().all(|b| b.is_ascii_digit())
+}
+/// the integer literal `lit` as an element of the ring (what R::from_str returns on it)
+fn c_of_lit(rt: RT, lit: &str) -> String {
+    if rt.is_q() {
+        format!("{}/1", lit)
+    } else if rt.is_g() {
+        format!("{}:0", lit)
+    } else {
+        lit.to_string()
+    }
+}
+/// exponent of a one-variable monomial string "x", "x^d", "x^{d}" (the FromStr syntax of Var<'x', _>)
+fn xvar_exp(s: &str) -> Option<i64> {
+    if s == "x" {
+        return Some(1);
+    }
+    let t = s.strip_prefix("x^")?;
+    if let Some(u) = t.strip_prefix('{') {
+        return u.strip_suffix('}')?.parse::<i64>().ok();
+    }
+    if t.len() == 1 { t.parse::<i64>().ok() } else { None }
+}
+/// a string for PolyBase::from_str: integer literals (zero in several spellings, ring-zero for F_3) and, for the
+/// one-variable types, monomial strings
+fn gen_pstr(r: &mut Rng, rt: RT, mt: MT, zero: bool) -> String {
+    if zero {
+        return match rt {
+            RT::F3 => (*r.pick(&["0", "3", "6", "-3", "00", "-0", "9"])).to_string(),
+            _ => (*r.pick(&["0", "0", "00", "-0"])).to_string(),
+        };
+    }
+    if matches!(mt, MT::U1 | MT::I1) && r.chance(1, 3) {
+        return match r.below(5) {
+            0 => "x".into(),
+            1 => format!("x^{}", r.below(10)),
+            2 => format!("x^{{{}}}", r.below(30)),
+            3 if mt == MT::I1 => format!("x^{{-{}}}", r.below(12)),
+            _ => "x^{0}".into(),
+        };
+    }
+    match r.below(6) {
+        0 => "1".into(),
+        1 => "-1".into(),
+        2 if rt.is_big() => big_dec(r, 19, 30),
+        _ => r.range(-12, 12).to_string(),
+    }
+}
+
 // ---------- monomials (dense exponent vectors on the generator side) ----------
 fn exp_range(mt: MT, small: bool) -> (i64, i64) {
     match (mt, small) {
@@ -1611,6 +1671,25 @@ impl PB {
         let reg = |s: &str| -> Sh { self.sh[s.parse::<usize>().unwrap()] };
         let mut s = match a[0] {
             "set" => sh_poly(rt, a[2])?,
+            "term" => sh_poly(rt, a[2])?,
+            "dterm" => {
+                let x = sh_poly(rt, &format!("{}@{}", a[2], a[3]))?;
+                let y = sh_poly(rt, &format!("{}@{}", a[2], a[4]))?;
+                Sh { t: 1, ..sh_add(rt, x, y)? }
+            }
+            "gen" => Sh { t: 1, e: mono_maxexp(a[2]), b: if rt == RT::F3 { 0 } else { 1 }, d: 1 },
+            "const" if mt.is_poly() => sh_poly(rt, &format!("{}@{}", unit_mono(mt), a[2]))?,
+            "pstr" if mt.is_poly() => {
+                if is_int_lit(a[2]) {
+                    sh_poly(rt, &format!("{}@{}", unit_mono(mt), c_of_lit(rt, a[2])))?
+                } else {
+                    let e = xvar_exp(a[2])?;
+                    if !matches!(mt, MT::U1 | MT::I1) || (e < 0 && mt == MT::U1) {
+                        return None;
+                    }
+                    Sh { t: 1, e: e.unsigned_abs(), b: if rt == RT::F3 { 0 } else { 1 }, d: 1 }
+                }
+            }
             "add" | "sub" => sh_add(rt, reg(a[2]), reg(a[3]))?,
             "neg" => reg(a[2]),
             "smul" => sh_smul(rt, reg(a[2]), a[3])?,
@@ -1769,6 +1848,29 @@ fn rand_observer(r: &mut Rng, pb: &mut PB) {
     }
 }
 
+/// one of the single-term constructors into register d: From<(X, R)> (coefficient arbitrary, zero, or a
+/// difference a - b), From<X>, from_const, FromStr
+fn rand_single(r: &mut Rng, rt: RT, mt: MT, d: u64) -> String {
+    let small = r.bool();
+    let v = gen_mono_vec(r, mt, small);
+    let x = spell(r, mt, &v, true);
+    let coef = |r: &mut Rng| if r.chance(2, 5) { zeroish_coef(r, rt) } else { gen_coef(r, rt) };
+    match r.below(if mt.is_poly() { 10 } else { 6 }) {
+        0 | 1 | 2 => format!("term {} {}@{}", d, x, coef(r)),
+        3 | 4 => {
+            let a = gen_coef(r, rt);
+            let b = if r.bool() { a.clone() } else { gen_coef(r, rt) };
+            format!("dterm {} {} {} {}", d, x, a, b)
+        }
+        5 => format!("gen {} {}", d, x),
+        6 | 7 => format!("const {} {}", d, coef(r)),
+        _ => {
+            let z = r.chance(1, 3);
+            format!("pstr {} {}", d, gen_pstr(r, rt, mt, z))
+        }
+    }
+}
+
 fn rand_prog(r: &mut Rng, rt: RT, mt: MT) -> String {
     let nregs = 2 + r.below(4) as usize;
     let mut pb = PB::new(rt, mt, nregs);
@@ -1778,6 +1880,12 @@ fn rand_prog(r: &mut Rng, rt: RT, mt: MT) -> String {
     // most registers are loaded first (the others stay zero)
     for d in 0..nregs {
         if r.chance(3, 4) {
+            if r.chance(1, 6) {
+                let t = rand_single(r, rt, mt, d as u64);
+                if pb.op(&t) {
+                    continue;
+                }
+            }
             let small = r.chance(1, 2);
             let p = gen_poly(r, rt, mt, small);
             if !pb.op(&format!("set {} {}", d, p)) {
@@ -1791,8 +1899,12 @@ fn rand_prog(r: &mut Rng, rt: RT, mt: MT) -> String {
         let b = if r.chance(1, 3) { a } else { r.below(n) };
         let w = r.below(100);
         let text = if w < 14 {
-            let small = r.bool();
-            format!("set {} {}", d, gen_poly(r, rt, mt, small))
+            if r.chance(2, 5) {
+                rand_single(r, rt, mt, d)
+            } else {
+                let small = r.bool();
+                format!("set {} {}", d, gen_poly(r, rt, mt, small))
+            }
         } else if w < 29 {
             format!("add {} {} {}", d, a, b)
         } else if w < 43 {
@@ -1833,7 +1945,7 @@ fn rand_prog(r: &mut Rng, rt: RT, mt: MT) -> String {
 }
 
 /// cancellation templates; register 5 is never written (the zero value)
-const NTEMPLATES: u64 = 18;
+const NTEMPLATES: u64 = 21;
 fn template(r: &mut Rng, rt: RT, mt: MT, which: u64) -> Option<String> {
     let mut pb = PB::new(rt, mt, 6);
     let poly = mt.is_poly();
@@ -2132,6 +2244,110 @@ fn template(r: &mut Rng, rt: RT, mt: MT, which: u64) -> Option<String> {
             op!("appl 3 0 0");
             op!("eq 3 5");
         }
+        18 => {
+            // single-term constructor From<(X, R)> with a coefficient that is zero in the ring; `* 1` keeps the
+            // value as it is; r |-> r*x is additive; From<X> is From<(X, 1)>
+            let small = r.bool();
+            let v = gen_mono_vec(r, mt, small);
+            let x = spell(r, mt, &v, true);
+            op!("term 0 {}@{}", x, zeroish_coef(r, rt));
+            op!("eq 0 5");
+            op!("coef 0 {}", x);
+            op!("asmono 0");
+            op!("smul 1 0 {}", c_int(rt, 1));
+            op!("eq 1 5");
+            op!("neg 1 0");
+            op!("eq 1 0");
+            let k = if r.bool() { small_coef(r, rt) } else { gen_coef(r, rt) };
+            op!("term 1 {}@{}", x, k);
+            op!("term 2 {}@{}", x, c_neg(rt, &k));
+            op!("add 3 1 2");
+            op!("eq 3 0");
+            op!("eq 3 5");
+            op!("dterm 4 {} {} {}", x, k, k);
+            op!("eq 4 5");
+            op!("eq 4 0");
+            op!("gen 2 {}", x);
+            op!("term 3 {}@{}", x, c_int(rt, 1));
+            op!("eq 2 3");
+            op!("asmono 2");
+            op!("sub 2 2 3");
+            op!("eq 2 0");
+            if poly {
+                op!("mul 4 0 1");
+                op!("eq 4 5");
+                op!("mul 4 1 0");
+                op!("eq 4 0");
+            } else {
+                op!("lmul 4 0 1");
+                op!("eq 4 5");
+            }
+        }
+        19 if poly => {
+            // from_const: r |-> r is a ring homomorphism into the polynomials, from_const(0) == 0
+            op!("const 0 {}", zeroish_coef(r, rt));
+            op!("eq 0 5");
+            op!("smul 1 0 {}", c_int(rt, 1));
+            op!("eq 1 5");
+            if rt.has_units() {
+                op!("unit 0");
+                op!("inv 0");
+            }
+            let k = if r.bool() { small_coef(r, rt) } else { gen_coef(r, rt) };
+            op!("const 1 {}", k);
+            op!("const 2 {}", c_neg(rt, &k));
+            op!("add 3 1 2");
+            op!("eq 3 0");
+            op!("eq 3 5");
+            op!("mul 3 0 1");
+            op!("eq 3 5");
+            op!("mul 3 1 0");
+            op!("eq 3 0");
+            op!("set 4 {}", a);
+            op!("mul 3 4 0");
+            op!("eq 3 5");
+            op!("mul 3 0 4");
+            op!("eq 3 0");
+            op!("add 3 4 0");
+            op!("eq 3 4");
+            op!("sub 3 0 4");
+            op!("pow 2 0 2");
+            op!("eq 2 5");
+            op!("pow 2 0 0");
+            op!("dterm 2 {} {} {}", unit_mono(mt), k, k);
+            op!("eq 2 0");
+        }
+        20 if poly => {
+            // FromStr: "0" (and the other spellings of zero) is the zero polynomial; an integer literal is
+            // from_const; a monomial string is From<X>
+            let z = gen_pstr(r, rt, mt, true);
+            op!("pstr 0 {}", z);
+            op!("eq 0 5");
+            op!("const 1 {}", c_of_lit(rt, &z));
+            op!("eq 0 1");
+            op!("smul 1 0 {}", c_int(rt, 1));
+            op!("eq 1 5");
+            let l = gen_pstr(r, rt, mt, false);
+            op!("pstr 2 {}", l);
+            if is_int_lit(&l) {
+                op!("const 3 {}", c_of_lit(rt, &l));
+                op!("eq 2 3");
+                let nl = neg_int(&l);
+                op!("pstr 4 {}", nl);
+                op!("add 4 4 2");
+                op!("eq 4 0");
+                op!("eq 4 5");
+            } else if let Some(e) = xvar_exp(&l) {
+                op!("gen 3 {}", e);
+                op!("eq 2 3");
+                op!("asmono 2");
+            }
+            op!("set 3 {}", a);
+            op!("mul 4 3 0");
+            op!("eq 4 5");
+            op!("add 4 3 0");
+            op!("eq 4 3");
+        }
         _ => return None,
     }
     for _ in 0..r.below(3) {
@@ -2327,6 +2543,11 @@ const CORPUS: &[&str] = &[
     "prog Zb fr 2 set 0 3@99999999999999999999999+3@-99999999999999999999999+4@1 asmono 0 lmul 1 0 0 asmono 1",
     "prog Qb un 2 set 0 2^3,2^0@5/10+2^3@-1/2+-@4/2 asmono 0 nunit 0 inv 0 unit 0",
     "prog Gb u1 2 set 0 2@0:1 mul 1 0 0 mul 1 1 1 asmono 1 coef 1 8",
+    "prog Zi u1 4 const 0 0 eq 0 3 term 1 2@0 eq 1 3 dterm 2 2 5 5 eq 2 3 pstr 0 0 eq 0 3 gen 1 3 pstr 2 x^3 eq 1 2 const 0 4 const 1 -4 add 2 0 1 eq 2 3",
+    "prog F3 i2 3 const 0 3 eq 0 2 term 1 1,-1@6 eq 1 2 smul 1 1 1 eq 1 2 pstr 0 6 eq 0 2 unit 0 inv 0 dterm 1 0,2 1 4 eq 1 2",
+    "prog Qi fr 3 term 0 7@0/3 eq 0 2 gen 1 7 term 0 7@-1/1 add 0 0 1 eq 0 2 dterm 0 -1 1/2 2/4 eq 0 2 asmono 1",
+    "prog Gb un 3 term 0 0^1,2^0@0:0 eq 0 2 const 1 0:0 eq 1 2 pstr 1 -0 eq 1 2 gen 1 3^2,1^1 asmono 1 pstr 0 12345678901234567890123 mul 0 0 1",
+    "prog Zb i1 3 pstr 0 x^{-3} pstr 1 x^{3} mul 0 0 1 pstr 1 1 eq 0 1 pstr 1 x^{0} eq 0 1 pstr 1 00 eq 1 2 pstr 1 x eq 1 2",
     "mono u1 mk 5", "mono u1 mul 3 4", "mono u1 div 3 4", "mono u1 div 4 3", "mono i1 div 3 4", "mono i1 inv -3", "mono u1 inv 0",
     "mono u1 inv 2", "mono u1 cmp 2 3", "mono i1 cmp -2 -3", "mono u1 divides 2 3", "mono u1 divides 3 2", "mono i1 divides 3 2",
     "mono u2 mk 0,0", "mono u2 isone 0,0", "mono u2 isone 0,1", "mono u2 cmp 2,1 1,2", "mono u2 cmp 0,2 1,0", "mono i2 cmp 0,2 1,0",
@@ -2378,7 +2599,7 @@ fn generate(r: &mut Rng, thorough: bool, emit: &mut dyn FnMut(String)) {
     while n < 2500 * scale {
         let rt = *r.pick(&RINGS);
         let mt = *r.pick(&MONOS);
-        let w = if mt == MT::Fr { *r.pick(&[0u64, 1, 10, 11, 15, 17, 17]) } else { r.below(NTEMPLATES) };
+        let w = if mt == MT::Fr { *r.pick(&[0u64, 1, 10, 11, 15, 17, 17, 18]) } else { r.below(NTEMPLATES) };
         if let Some(c) = template(r, rt, mt, w) {
             emit(c);
             n += 1;
